@@ -288,6 +288,21 @@ def run(ctx) -> None:
             crash_sweep(label, root, ops, initial, dict(open=lambda d: cw.records(d / "cat"), measure_A=lambda d: cw.measure(d / "cat", "A", aux)))
             cat_traces.append(dict(label=label, old=bool(prior), events=catalog_events([o for o in ops if o["path"].startswith("cat")])))
 
+        # ---- W1b creation of a catalog with more records per patch than any write buffer ---------------
+        root = base / "w_create_big"
+        root.mkdir()
+        initial, ops = record_and_check("create_big", root, "create_big")
+        big = cw.big_frame()
+        big_ok = (len(big), float(big["w"].sum()))
+
+        def jd_big(rname, res):
+            if res[0] == "error":
+                return None
+            return None if res[1] == big_ok else ("opens_empty_catalog" if res[1][0] == 0 else "opens_partial_or_mixed_catalog")
+
+        judges["create_big"] = jd_big
+        crash_sweep("create_big", root, ops, initial, dict(open=lambda d: cw.count_records(d / "cat")))
+
         # ---- W3 first metadata computation ---------------------------------
         root = base / "w_meta"
         root.mkdir()
